@@ -167,7 +167,22 @@ var firsts = []string{"required", "required", "optional", "among", "among", "amo
 	// lists the client cannot use: white space, text or a comment inside the
 	// list, a list in a foreign namespace, another stream-level element in its place
 	"defective-space", "defective-text", "defective-comment", "defective-foreign-list", "defective-other-stream-element"}
-var answers = []string{"proceed", "proceed", "proceed", "failure", "wrongns", "unknown", "text", "garbage", "eof"}
+var answers = []string{"proceed", "proceed", "proceed", "failure", "wrongns", "unknown", "text", "garbage", "eof",
+	"ws1-eof", "ws3-eof", "ws4-eof", "ws5-eof", "ws9-eof", "ws4-failure", "ws5-unknown"}
+
+// whitespaceTokens is white space that an XML decoder delivers as n separate
+// character data tokens (keep-alives in every spelling XML has for them).
+func whitespaceTokens(n int) string {
+	var sb strings.Builder
+	for i := 0; i < n; i++ {
+		if i%2 == 0 {
+			sb.WriteString([]string{"\n", " ", "\t\r\n"}[(i/2)%3])
+		} else {
+			sb.WriteString("<![CDATA[ ]]>")
+		}
+	}
+	return sb.String()
+}
 var afters = []string{"tls", "tls", "tls-inject", "tls-inject", "garbage"}
 
 func genCase(t *rapid.T) tcase {
@@ -433,6 +448,20 @@ func runSessionNeg(sc sessionCase, feature xmpp.StreamFeature, forceTee *bool, s
 			conn.CloseInput()
 			return
 		case "eof":
+			conn.CloseInput()
+			return
+		}
+		if strings.HasPrefix(sc.answer, "ws") {
+			// white space only, then the end of the stream, a refusal or an
+			// element that is no answer: never a <proceed/>
+			n := int(sc.answer[2] - '0')
+			feedClear(whitespaceTokens(n))
+			switch {
+			case strings.HasSuffix(sc.answer, "-failure"):
+				feedClear(`<failure xmlns="` + tlsNS + `"/>`)
+			case strings.HasSuffix(sc.answer, "-unknown"):
+				feedClear(`<whatever xmlns="` + tlsNS + `"/>`)
+			}
 			conn.CloseInput()
 			return
 		}
